@@ -205,7 +205,7 @@ TRANSFER = {
 TIE_DEPENDS = {"Vst": ["WelfordOnline"], "Vsct": ["WelfordOnline"], "RoofingFilter": ["SuperSmoother"]}
 
 
-def translator_tie():
+def translator_tie(thorough=False):
     """Regenerate lean/SF/Gen/*.lean from the Rust text of the repository's working tree (tools/rs2lean.py) and re-check the
     theorems `SF.GenEq.<View>.tie` (generated view = model view on every input, for every child view).
     Returns dict(proved=[...], broken={view: why}, untranslatable={view: why}, wall_s, checker_cmd)."""
@@ -332,6 +332,16 @@ def translator_tie():
             res["transfer_error"] = (r.stdout + r.stderr)[-300:]
     else:
         res["transfer_skipped"] = "tie lost for " + ", ".join(sorted(need - set(res["proved"])))
+    if thorough and res["proved"]:
+        # thorough tier: Lean's independent re-checker on the compiled tie modules (and the transfer module when it was built)
+        mods = ["SF.GenEq." + v for v in sorted(res["proved"])] + (["SF.GenEq.Transfer"] if res.get("transfer") else [])
+        r = subprocess.run(["lake", "env", "leanchecker"] + mods, cwd=LEAN, capture_output=True, text=True)
+        res["leanchecker"] = "accepted %d modules" % len(mods) if r.returncode == 0 else "REJECTED: " + (r.stdout + r.stderr)[-400:]
+        if r.returncode != 0:
+            for v in list(res["proved"]):
+                res["proved"].remove(v)
+                res["broken"][v] = "leanchecker rejected the compiled tie modules"
+        res["checker_cmd"] += " && lake env leanchecker SF.GenEq.<View> ... SF.GenEq.Transfer"
     res["wall_s"] = round(time.time() - t0, 1)
     return res
 
